@@ -179,6 +179,41 @@ void Client::query(int kind, const Bytes &k0, const Bytes &k1, size_t opi)
 	mtbl_iter_destroy(&it);
 }
 
+// Two lookups alive at once, advanced in turn: each must still return exactly its own matches (a lookup does not own the
+// reader: others may be issued on it while its iterator is open).
+void Client::query_pair(int kindA, const Bytes &a0, const Bytes &a1, int kindB, const Bytes &b0, const Bytes &b1, size_t opi, uint64_t pattern)
+{
+	struct Q { int kind; Bytes k0, k1; mtbl_iter *it; TableModel::const_iterator pos; bool done; size_t n; ClientSlot m; } q[2];
+	q[0] = Q{ kindA, a0, a1, nullptr, model.end(), false, 0, ClientSlot() };
+	q[1] = Q{ kindB, b0, b1, nullptr, model.end(), false, 0, ClientSlot() };
+	for (auto &x : q) {
+		x.it = open_iter(src, x.kind, x.k0, x.k1);
+		x.pos = x.kind == 0 ? model.begin() : model.lower_bound(x.k0);
+		x.m.kind = x.kind; x.m.k0 = x.k0; x.m.k1 = x.k1;
+		res.ev.u(x.kind); res.ev.b(x.k0); res.ev.b(x.k1);
+	}
+	res.probes["two-lookups-interleaved"]++;
+	for (size_t step = 0; !(q[0].done && q[1].done) && !res.viol; step++) {
+		// which one advances: mostly alternating, with runs drawn from the pattern bits
+		Q &x = q[q[0].done ? 1 : q[1].done ? 0 : ((pattern >> (step % 64)) & 1)];
+		std::string what = "op " + std::to_string(opi) + ": interleaved query kind " + std::to_string(x.kind) + " key " + short_repr(x.k0) + (x.kind == 3 ? ".." + short_repr(x.k1) : "");
+		const uint8_t *k, *v; size_t kl, vl;
+		mtbl_res r = mtbl_iter_next(x.it, &k, &kl, &v, &vl);
+		bool expect_ok = x.pos != model.end() && in_bound(x.m, x.pos->first);
+		if (!expect_ok) {
+			if (r == mtbl_res_success) res.fail("MODEL", tag + "QUERY-extra", what + " returned extra key " + short_repr(Bytes((const char *)k, kl)));
+			x.done = true;
+			continue;
+		}
+		if (r != mtbl_res_success) { res.fail("MODEL", tag + "QUERY-missing", what + " missed key " + short_repr(x.pos->first)); break; }
+		Bytes gk((const char *)k, kl), gv((const char *)v, vl);
+		if (gk != x.pos->first) { res.fail("MODEL", tag + "QUERY-wrong", what + " returned " + short_repr(gk) + ", model expects " + short_repr(x.pos->first)); break; }
+		if (gv != x.pos->second) { res.fail("MODEL", tag + "QUERY-wrongval", what + " value of " + short_repr(gk) + " is " + short_repr(gv) + ", model has " + short_repr(x.pos->second)); break; }
+		++x.pos; ++x.n;
+	}
+	for (auto &x : q) { res.ev.u(x.n); if (x.n) res.probes["query-nonempty"]++; else res.probes["query-empty"]++; mtbl_iter_destroy(&x.it); }
+}
+
 bool Client::op(const Op &o, size_t opi)
 {
 	if (o.name == "sweepseek") {
@@ -210,6 +245,11 @@ bool Client::op(const Op &o, size_t opi)
 		int kind = (int)(o.argi(0) & 3);
 		Bytes k0 = resolve(o.arg(1), nullptr), k1 = resolve(o.arg(2), nullptr);
 		query(kind, k0, k1, opi);
+		return true;
+	}
+	if (o.name == "q2") {
+		int ka = (int)(o.argi(0) & 3), kb = (int)(o.argi(3) & 3);
+		query_pair(ka, resolve(o.arg(1), nullptr), resolve(o.arg(2), nullptr), kb, resolve(o.arg(4), nullptr), resolve(o.arg(5), nullptr), opi, (uint64_t)strtoull(o.arg(6).c_str(), nullptr, 10));
 		return true;
 	}
 	if (o.name == "open") {
